@@ -54,7 +54,7 @@ SameConc(x, y) ==
 JStep(id, k, ab, st, acc) ==
   LET c    == Conc(st)
       acc0 == IF ab.jump THEN Big0 ELSE acc
-      velb == IF ab.jump THEN Big0 ELSE st.velb
+      velb == st.velb                       \* window total as of the time of the request
       v1   == V1(st)
       a2   == A2(st)
       exp  == Step(c, velb, Wrap)
